@@ -128,6 +128,36 @@ func c19Gen(r *rand.Rand, big bool) c19Journal {
 		to: (info.Dates[len(info.Dates)-1] + 30).String()}
 }
 
+// wideTree spreads the journal over a root that includes `width` sibling
+// files, each of which includes one leaf: many parsers run at once and every
+// one of them spawns a further include while it is still running.
+func wideTree(r *rand.Rand, j *gen.Journal, width int) map[string][]byte {
+	files := map[string][]byte{}
+	var root strings.Builder
+	mids := make([]strings.Builder, width)
+	leaves := make([]strings.Builder, width)
+	for _, d := range j.Dirs {
+		n := r.Intn(width)
+		switch r.Intn(5) {
+		case 0:
+			root.WriteString(gen.RenderDir(d) + "\n")
+		case 1, 2:
+			mids[n].WriteString(gen.RenderDir(d) + "\n")
+		default:
+			leaves[n].WriteString(gen.RenderDir(d) + "\n")
+		}
+	}
+	for n := 0; n < width; n++ {
+		fmt.Fprintf(&root, "include \"w/mid%d.knut\"\n", n)
+		// the include stands at the end of the mid file: its parser is still busy when it spawns the leaf
+		fmt.Fprintf(&mids[n], "\ninclude \"leaf%d.knut\"\n", n)
+		files[fmt.Sprintf("w/mid%d.knut", n)] = []byte(mids[n].String())
+		files[fmt.Sprintf("w/leaf%d.knut", n)] = []byte(leaves[n].String())
+	}
+	files["main.knut"] = []byte(root.String())
+	return files
+}
+
 type c19Cmd struct {
 	key         string
 	args        []string
@@ -525,6 +555,11 @@ func checkTraceSpec(evs []traceEv) (why string, stages, days int, sig string) {
 func (k *c19) traceCase(c *core.Ctx, i int) {
 	r := c.Rng(i, "trace")
 	w := c19Gen(r, false)
+	if i%3 == 0 {
+		width := []int{8, 20, 33, 48, 64, 100}[r.Intn(6)]
+		w.files = wideTree(r, w.j, width)
+		c.Observe("wide_tree_widths", fmt.Sprint(width))
+	}
 	dir := c.CaseDir(i)
 	defer os.RemoveAll(dir)
 	core.WriteFiles(dir, w.files)
@@ -537,14 +572,26 @@ func (k *c19) traceCase(c *core.Ctx, i int) {
 		env := c19Env(r)
 		trace := filepath.Join(dir, fmt.Sprintf("trace%d.jsonl", ci))
 		env = append(env, "KNUT_VERIF_TRACE="+trace)
-		res := knut(c, dir, env, args...)
+		ex := core.Cmd{Argv: append([]string{c.Knut}, args...), Dir: dir, Env: env, Timeout: 40 * time.Second, Fsize: -1}
+		res := core.Exec(ex)
 		c.Eval(1)
 		fail := func(key, why string, extra map[string]string) {
 			c.Violation(core.Witness{Case: i, Key: key, Why: fmt.Sprintf("`knut %s` (%s): %s", strings.Join(args, " "), strings.Join(env, " "), why), Files: w.files, Cmd: knutCmd(c, env, args...), Extra: extra})
 		}
 		if res.Class == "timeout" {
-			c.Inconclusive(i, "trace run timed out")
-			continue
+			hangs := 1
+			for n := 0; n < 2; n++ {
+				os.Remove(trace)
+				if core.Exec(ex).Class == "timeout" {
+					hangs++
+				}
+			}
+			if hangs < 3 {
+				c.Inconclusive(i, "trace run timed out once")
+				continue
+			}
+			fail("hang:"+args[0], fmt.Sprintf("the command does not terminate on an accepted journal spread over %d files (3 of 3 attempts exceeded 40 s); goroutine dump in stderr.txt", len(w.files)), map[string]string{"stderr.txt": core.Trunc(string(res.Stderr), 60000)})
+			return
 		}
 		if res.Class != "ok" {
 			fail("accepted-journal-fails:"+args[0], "the command fails on an accepted multi-file journal: "+fmtErr(res), nil)
